@@ -413,6 +413,7 @@ func main() {
 	r.Parallel("wallet", r.N(12, 300), evid.Workers(), func(i int, cs int64) { walletAuthoring(r, dir, cs) })
 	r.Require("wallet-authored-and-measured", 100)
 	r.Require("wallet-multi-round-selections", 10)
+	r.Require("wallet-sweep-like-requests-authored", 5)
 	r.Require("wallet-authored-from-the-imported-keys-account", 5)
 	r.Require("signed-and-measured", 800)
 	r.Require("multi-round-selections", 100)
